@@ -182,6 +182,15 @@ def run(model: Model, rep: Report) -> None:
                 r10.violation(site(mf, n), mf.qualname, txt, "the table is emptied, shrunk or replaced after construction: constants interned at import time (LITERAL_PAGE, KEYWORD_OBJ, ...) are no longer the objects that later lookups return, so documents read afterwards are understood differently from documents read before")
     init10 = st_cls.methods.get("__init__")
     r10.check(init10 is not None and stores10 >= 1, site(init10) if init10 is not None else "pdfminer/psparser.py:0", st_cls.qualname, "the table is created in __init__ and filled by intern only", why="no store found")
+    r11 = rep.rule("C12-R11", "GUARD", "a stream is decoded once: get_data() runs decode() only while no decoded payload is stored (`self.data is None`), whatever that payload is - an empty result is a result", 1)
+    gd = model.func("pdfminer.pdftypes.PDFStream.get_data")
+    calls11 = [c for c in walk_no_nested(gd.node) if isinstance(c, ast.Call) and (dotted(c.func) or "") == "self.decode"]
+    if not calls11:
+        raise AnchorMissing("PDFStream.get_data: self.decode() not found")
+    from ..util import guard_conjuncts
+
+    g11 = guard_conjuncts(gd, calls11[0])
+    r11.check(g11 == {"self.dataisNone"}, site(gd, calls11[0]), gd.qualname, "decode() runs under `self.data is None` only", why=f"conditions {sorted(g11)}: with a truth test an empty decoded payload looks undecoded, so the second access of the same (cached) stream decodes again - the result then depends on whether the object was cached")
     # ---------------------------------------------------------------- R1
     r1 = rep.rule("C12-R1", "EFFECTS", "global state inventory: no function writes module/class-level state outside the reviewed memo tables", 20)
     writes = global_writes(model, inv)
